@@ -323,6 +323,7 @@ type Sess struct {
 	P     *Profile
 	rng   *rand.Rand
 	Log   []string // every request sent, for failure details
+	Only0 bool     // send every request to node 0 (key translation is the coordinator's job; C24 covers replicas)
 	ctx   context.Context
 }
 
@@ -407,7 +408,7 @@ func (s *Sess) Close() {
 // api picks the node that receives the next request (node 0 on single servers; any node
 // of a cluster, so that forwarding between nodes is exercised).
 func (s *Sess) api() *pilosa.API {
-	if s.Nd.N == 1 {
+	if s.Nd.N == 1 || s.Only0 {
 		return s.Nd.C[0].API
 	}
 	return s.Nd.C[s.rng.Intn(s.Nd.N)].API
